@@ -509,7 +509,7 @@ func main() {
 		"http-describe", "service-name:set", "service-name:default", "server-id:set", "protocol-version:set", "conformance-service",
 		"names:non-ascii", "names:case-mix")
 
-	nSurf := r.N(800, 16000)
+	nSurf := r.N(2000, 30000)
 	const chunk = 400
 	procs := []int{1, 2, 16}
 	done := 0
